@@ -93,7 +93,6 @@ MUTANTS = [
 
 # mutants that change zorg's internals without violating the property statement
 EQUIVALENT = {
-    "m13_piecemeal_commits_in_remove": "masked since repairs 2d1080e/69327c8: a reindex now forgets the hashes of the files it is about to touch BEFORE the first commit, so whatever intermediate state the piecemeal commits leave behind, the rerun re-indexes those files in full (the defect needed the rerun to skip the page). Reverting 2d1080e as well (m13_hashes_of_changed_files_not_forgotten) is caught",
     "m06_keep_orphan_tags": "orphan tag rows are never read back: every tag listing is derived from the tags of matching notes, so no query can tell the difference (C06 is about query answers)",
 }
 
